@@ -375,3 +375,56 @@ pub fn c10_mixed() -> i32 {
     }
     report(found, tried)
 }
+
+// ---------------------------------------------------------------------------------------------
+// C16 / U-BUILDERS: derive-registry builder calls in every order, with repetition, observed through flatten + resolve
+pub fn c16_builders() -> i32 {
+    use std::collections::HashSet;
+    let mut tried = 0;
+    let mut found = None;
+    let reg = registry(vec![
+        ty("", vec![], prim(TypeDefPrimitive::U8)),
+        ty("m::Leaf", vec![], composite(vec![field(Some("x"), 0, Some("u8"))])),
+        ty("m::Root", vec![], composite(vec![field(Some("a"), 1, Some("Leaf"))])),
+    ]);
+    let root: syn::TypePath = syn::parse_quote!(m::Root);
+    let leaf: syn::TypePath = syn::parse_quote!(m::Leaf);
+    let p = |s: &str| -> syn::Path { syn::parse_str(s).unwrap() };
+    let at = |s: &str| -> syn::Attribute { let id: syn::Ident = syn::parse_str(s).unwrap(); syn::parse_quote!(#[#id]) };
+    // operations: 0 global derive G, 1 global attr g, 2 specific derive S on Root, 3 recursive derive R on Root,
+    //             4 specific attr s on Leaf, 5 recursive attr r on Root
+    let apply = |d: &mut DerivesRegistry, op: usize| match op {
+        0 => d.add_derives_for_all([p("G")]),
+        1 => d.add_attributes_for_all([at("g")]),
+        2 => d.add_derives_for(root.clone(), [p("S")], false),
+        3 => d.add_derives_for(root.clone(), [p("R")], true),
+        4 => d.add_attributes_for(leaf.clone(), [at("s")], false),
+        _ => d.add_attributes_for(root.clone(), [at("r")], true),
+    };
+    // every sequence of length <= 4 over the six operations
+    let mut seqs: Vec<Vec<usize>> = vec![vec![]];
+    let mut frontier: Vec<Vec<usize>> = vec![vec![]];
+    for _ in 0..4 { let mut next = vec![]; for s0 in &frontier { for op in 0..6 { let mut s1 = s0.clone(); s1.push(op); next.push(s1); } } seqs.extend(next.iter().cloned()); frontier = next; }
+    'o: for seq in seqs {
+        tried += 1;
+        let mut d = DerivesRegistry::new();
+        for op in &seq { apply(&mut d, *op); }
+        let flat = match d.flatten_recursive_derives(&reg) { Ok(f) => f, Err(e) => { found = Some((format!("{seq:?}"), format!("flatten failed: {e}"))); break 'o; } };
+        let has = |op: usize| seq.contains(&op);
+        let mut root_d: HashSet<syn::Path> = HashSet::new(); let mut root_a: HashSet<syn::Attribute> = HashSet::new();
+        let mut leaf_d: HashSet<syn::Path> = HashSet::new(); let mut leaf_a: HashSet<syn::Attribute> = HashSet::new();
+        if has(0) { root_d.insert(p("G")); leaf_d.insert(p("G")); }
+        if has(1) { root_a.insert(at("g")); leaf_a.insert(at("g")); }
+        if has(2) { root_d.insert(p("S")); }
+        if has(3) { root_d.insert(p("R")); leaf_d.insert(p("R")); }
+        if has(4) { leaf_a.insert(at("s")); }
+        if has(5) { root_a.insert(at("r")); leaf_a.insert(at("r")); }
+        let rr = flat.resolve(&root); let lr = flat.resolve(&leaf);
+        if rr.derives() != &root_d || rr.attributes() != &root_a || lr.derives() != &leaf_d || lr.attributes() != &leaf_a {
+            found = Some((format!("builder call sequence {seq:?} (0 all-derive, 1 all-attr, 2 specific derive Root, 3 recursive derive Root, 4 specific attr Leaf, 5 recursive attr Root)"),
+                format!("Root has {}/{} derives/attrs (expected {}/{}), Leaf {}/{} (expected {}/{})", rr.derives().len(), rr.attributes().len(), root_d.len(), root_a.len(), lr.derives().len(), lr.attributes().len(), leaf_d.len(), leaf_a.len())));
+            break 'o;
+        }
+    }
+    report(found, tried)
+}
